@@ -449,6 +449,67 @@ func runC15(w *World, r *Report) {
 		}
 	}
 
+	r.Rule("C15.static-only-converted", "Workflow.compile: a node that gets the static-value merge handler is also registered in the graph's fieldMappingRecords (on every path from installing the handler to the next node: a write of fieldMappingRecords[n.key], or the found-arm of a lookup of it), which is what makes graph.compile put the map-to-input converter behind the handler; and the channel's 'no data' value for such a node is the intermediate map (shared with C02)", 4)
+	{
+		wfc := w.Fn("compose", "Workflow.compile")
+		graphT := w.Named("compose", "graph")
+		var regs, recs []ssa.Instruction
+		foundEdge := map[[2]*ssa.BasicBlock]bool{}
+		for _, fw := range fieldWrites(wfc) {
+			if fw.owner != graphT {
+				continue
+			}
+			if _, isMU := fw.in.(*ssa.MapUpdate); !isMU {
+				continue
+			}
+			switch fw.field.Name() {
+			case "handlerPreNode":
+				regs = append(regs, fw.in)
+			case "fieldMappingRecords":
+				recs = append(recs, fw.in)
+			}
+		}
+		fRec := w.Field("compose", "graph", "fieldMappingRecords")
+		instrs(wfc, func(in ssa.Instruction) {
+			iff, ok := in.(*ssa.If)
+			if !ok {
+				return
+			}
+			if ex, ok := iff.Cond.(*ssa.Extract); ok && ex.Index == 1 {
+				if lk, ok := ex.Tuple.(*ssa.Lookup); ok && lk.CommaOk && isLoadOfField(lk.X, fRec) {
+					foundEdge[[2]*ssa.BasicBlock{iff.Block(), iff.Block().Succs[0]}] = true
+				}
+			}
+		})
+		if len(regs) == 0 {
+			undecidedf("C15.static-only-converted: Workflow.compile installs no pre-node handler")
+		}
+		for i, reg := range regs {
+			var inner *loopInfo
+			for _, li := range naturalLoops(wfc) {
+				li := li
+				if li.body[reg.Block()] && (inner == nil || len(li.body) < len(inner.body)) {
+					inner = &li
+				}
+			}
+			if inner == nil {
+				undecidedf("C15.static-only-converted: the static-value handler is not installed in a loop over the nodes")
+			}
+			isRec := func(in ssa.Instruction) bool {
+				for _, x := range recs {
+					if x == in {
+						return true
+					}
+				}
+				return false
+			}
+			skip, wit := pathQuery{fn: wfc, from: reg, goal: func(in ssa.Instruction) bool { return in.Block() == inner.header }, avoid: isRec,
+				avoidEdge: func(a, b *ssa.BasicBlock) bool { return foundEdge[[2]*ssa.BasicBlock{a, b}] || !inner.body[b] }}.exists()
+			r.Check(!skip, "C15.static-only-converted", fmt.Sprintf("Workflow.compile: static-value handler #%d comes with a mapping record", i+1), reg.Pos(), "fieldMappingRecords[n.key] written or found present before the next node", "a node fed by static values only (SetStaticValue + AddDependency) gets the merge handler but no map-to-input converter: Compile accepts it and every run fails ('(mergeValues) unsupported type' in Invoke, a node panic 'unexpected input type … StreamReader[map[string]interface {}]' in Stream) unless the node's input happens to be map[string]any: "+wit)
+		}
+	}
+	mappedZeroChecks(w, r, "C15.static-only-converted")
+
 	r.Rule("C15.source-field-readable", "checkAndExtractFromField returns a field value only under CanInterface() == true", 1)
 	{
 		f := w.Fn("compose", "checkAndExtractFromField")
